@@ -52,9 +52,20 @@ def fnnls_cholesky(
 
     if P_initial.shape[0] != 0:
         P_number = np.arange(len(P), dtype="int")
-        P_inorder = P_number[P_initial]
         s_chol[P] = lstsq((ZTZ)[P][:, P], (ZTx)[P])
-        d = s_chol.clip(min=0)
+
+        # The warm start must be a valid state of the algorithm (every solution in the passive set is the positive
+        # least-squares solution on that set), so solutions which are not positive are moved to the active set and
+        # the remaining ones are solved for again. The gradient `w` must also correspond to this starting point.
+        while np.any(P) and np.min(s_chol[P]) <= tolerance:
+            P[s_chol <= tolerance] = False
+            s_chol[:] = 0.0
+            if np.any(P):
+                s_chol[P] = lstsq((ZTZ)[P][:, P], (ZTx)[P])
+
+        P_inorder = P_number[P]
+        d = s_chol.copy()
+        w = ZTx - (ZTZ) @ d
     else:
         P_inorder = np.array([], dtype="int")
 
